@@ -342,6 +342,11 @@ class GraphState:
         # same sentinel every time, so each production counts as a change.
         if is_new or value is _EMIT_SENTINEL:
             self.versions[name] = self.versions.get(name, 0) + 1
+        elif old_value is value:
+            # Storing the object that is already stored is not a change, even for
+            # values that do not compare equal to themselves (NaN): an interrupt
+            # re-emits the very answer the caller supplied when it is resumed.
+            pass
         else:
             # Defensive comparison for types like numpy arrays
             try:
